@@ -18,7 +18,7 @@ RULE = ('three streams. bind: EVERY signature with 0-4 positional parameters x 0
         'with None, 0, "", [], False, NaN, (), {}, 0.0 (evaluations counted per distinct combination exactly) with repeated, ==-equal (1, 1.0, True) and '
         'unhashable list/dict arguments, lists vs tuples vs dict-item tuples of the same content, keywords in different orders; compared: every return and the '
         'list of evaluated calls. The oracle is written from the property text (inspect as reference binding, Python == on the arguments as passed for '
-        '"distinct combination"). tryhist: try_value with a mutable fallback ([], {}, filled, list subclass, try_list) over histories in which f raises >= 2 times '
+        '"distinct combination"). pd2np built with exc= (str / list / tuple / None) on non-pandas and pandas (Series, DataFrame) first arguments with the excluded parameter by keyword / position / absent; try_back with f raising and all arguments by keyword in every permuted order. tryhist: try_value with a mutable fallback ([], {}, filled, list subclass, try_list) over histories in which f raises >= 2 times '
         'and the caller mutates every fallback it receives: every fallback must be the pristine value and a new object. non-trivial = valid call passing >= 1 keyword or using a default (bind), stack of >= 2 or raising f (stack), sequence with a '
         'repeated combination (cache); distinct by full input')
 EXPLANATION = ('theorems C18_* (coq/props/C18.v) hold for every signature, every call, every chain of wrapper types and every call sequence (induction, no '
@@ -44,10 +44,30 @@ LOOPV = ['loop', 'loop_dict', 'loop_tuple_dict', 'loop_all']
 # argument VALUES of other kinds: the int v of a case stands for KOBJ[v]; results are translated back, so the model stays over ints
 KOBJ = {1: 'one', 2: 'two', 3: 2.5, 4: (1, 2), 5: {'x': 1}, 6: (3,), 10: -7.25, 11: float('inf'), 12: b'x', 13: frozenset({1}), 14: '', 15: b''}     # no value that is also a try_* fallback
 _KINDS = [False]
+# codes 50..59 stand for pandas objects, code + 10 for their numpy values (pd2np cases)
+_PD = {}
+def pdobj(v):
+    if not _PD:
+        import pandas as pd
+        _PD[50] = pd.Series([1.5, 2.5], index=[10, 20]); _PD[51] = pd.Series([7.5]); _PD[52] = pd.DataFrame({'u': [1.5, 2.5], 'v': [3.5, 4.5]})
+    return _PD.get(v)
+def uncode_pd(x):
+    import numpy as np, pandas as pd
+    if isinstance(x, (pd.Series, pd.DataFrame)):
+        for v in (50, 51, 52):
+            if type(pdobj(v)) is type(x) and pdobj(v).equals(x): return v
+    if isinstance(x, np.ndarray):
+        for v in (50, 51, 52):
+            if np.array_equal(pdobj(v).values, x): return v + 10
+    return None
 def encode_kind(v):
     return KOBJ.get(v, v)
 def uncode(x):
-    if not _KINDS[0] or type(x) is int: return x
+    if type(x) is int: return x
+    if type(x).__module__.split('.')[0] in ('pandas', 'numpy'):
+        c = uncode_pd(x)
+        return x if c is None else c
+    if not _KINDS[0]: return x
     for v, o in KOBJ.items():
         if type(o) is type(x) and o == x: return v
     return x
@@ -91,8 +111,8 @@ def coq_case(case):
     if k == 'tryhist':
         return '(%s, [%s])' % (coq_av(case['value']), '; '.join('true' if b else 'false' for b in case['steps']))
     if k == 'stack':
-        return '([%s], %s, %s, %s, %s)' % ('; '.join(TAG[d] for d in case['decos']), coq_sig(case), 'true' if case['raises'] else 'false', coq_call(case),
-                                         FALLBACK_J[case.get('tryv', 'try_none')])
+        return '([%s], %s, %s, %s, %s, [%s])' % ('; '.join(TAG[d] for d in case['decos']), coq_sig(case), 'true' if case['raises'] else 'false', coq_call(case),
+                                               FALLBACK_J[case.get('tryv', 'try_none')], '; '.join(coq_str(x) for x in case.get('exc', [])))
     return '([%s], [%s])' % ('; '.join(coq_av(r) for r in ret_pool(case)),
                              '; '.join('([%s], [%s])' % ('; '.join(coq_av(a) for a in c['args']), '; '.join('(%s, %s)' % (coq_str(k), coq_av(v)) for k, v in c['kw'])) for c in case['calls']))
 
@@ -185,13 +205,18 @@ def impl_stack(case):
     decos = case['decos']
     f = make_f(case, case['raises'])
     variant = {'try_none': case.get('tryv', 'try_none'), 'loop': case.get('loopv', 'loop')}
-    DD = lambda d: D[variant.get(d, d)]
+    def DD(d):
+        if d == 'pd2np' and 'exc' in case:             # pd2np built with an exclusion list, in each accepted spelling
+            exc = case['exc']; form = case.get('excform', 'list')
+            return D['pd2np'](exc = (exc[0] if form == 'str' and len(exc) == 1 else tuple(exc) if form == 'tuple' else None if not exc and form == 'none' else list(exc)))
+        return D[variant.get(d, d)]
     def mk():
         w = f
         for d in decos: w = DD(d)(w)
         return w
     _KINDS[0] = bool(case.get('kinds'))
-    enc = encode_kind if case.get('kinds') else (lambda v: v)
+    enc0 = encode_kind if case.get('kinds') else (lambda v: v)
+    enc = lambda v: pdobj(v) if 50 <= v < 60 else enc0(v)
     a = tuple(enc(x) for x in case['args']); k = dict((x, enc(y)) for x, y in case['kw'])
     w = mk()
     chain = chain_of(w)
@@ -235,8 +260,14 @@ def impl_stack(case):
                     inspect.getcallargs(f, *a, **k2); claim = True
                 except TypeError:
                     claim = False
+        a_f, k2_f = a, k2
+        if 'pd2np' in decos:                 # with a pandas FIRST argument pd2np hands f numpy values, except for the keywords excluded at construction
+            first = case['args'][0] if case['args'] else dict(case['kw']).get(declared[0] if declared else None)
+            if first is not None and 50 <= first < 60:
+                conv = lambda v: v.values if hasattr(v, 'values') and type(v).__module__.startswith('pandas') else v
+                a_f = tuple(conv(v) for v in a); k2_f = {x: (y if x in case.get('exc', []) else conv(y)) for x, y in k2.items()}
         if claim:
-            st0, r0 = outcome(f, *a, **k2)
+            st0, r0 = outcome(f, *a_f, **k2_f)
             eff = []                                                       # the stack after double wrapping is removed, innermost first
             for d in decos: eff = [x for x in eff if x != d] + [d]
             tries = [d for d in eff if d in ('try_none', 'try_back')]
@@ -250,7 +281,7 @@ def impl_stack(case):
             else:
                 want = (st0, None)
             if want is not None and (st, obs_of(st, r)) != (want[0], obs_of(*want)):
-                if 'kwargs_support' in decos and undeclared and case['vk'] and st == 'ok' and r == outcome(f, *a, **{x: y for x, y in k.items() if x in declared})[1]:
+                if 'kwargs_support' in decos and undeclared and case['vk'] and st == 'ok' and r == outcome(f, *a_f, **{x: y for x, y in k2_f.items() if x in declared})[1]:
                     viol = 'kwargs_support dropped the undeclared keyword(s) %r although %s declares **kw: stack %r returned %r, f returns %r' % (undeclared, sig_text(case), decos, r, r0)
                     kws_finding = True
                 else:
@@ -423,6 +454,36 @@ def gen_cases(rng, tier):
                         cases.append(dict(kind='stack', decos=[d], raises=False, **sig, **call))
                     cases.append(dict(kind='stack', decos=['loop', 'try_none'], raises=False, **sig, **call))
                     cases.append(dict(kind='stack', decos=['kwargs_support', 'cache', 'loop'], raises=False, **sig, **call))
+    # pd2np built with exc = ...: non-pandas and pandas first arguments; the excluded parameter by keyword, by position, absent
+    for sig in ({'npos': 3, 'ndef': 2, 'va': False, 'vk': False}, {'npos': 3, 'ndef': 1, 'va': False, 'vk': True}, {'npos': 2, 'ndef': 1, 'va': True, 'vk': True},
+                {'npos': 3, 'ndef': 3, 'va': False, 'vk': False}):
+        names = NAMES[:sig['npos']]
+        for exc, form in ((['b'], 'str'), (['b'], 'list'), (['b', 'c'], 'list'), (['c', 'zz'], 'tuple'), (['a'], 'str'), ([], 'none'), (['nope'], 'list')):
+            for first in (1, 50, 52):
+                for others in ((7, 8), (51, 8), (51, 50)):
+                    vals = dict(zip(names, (first,) + others))
+                    for kpos in range(0, sig['npos'] + 1):
+                        for drop in ((), names[-1:], names[1:]):
+                            kwn = [x for x in names[kpos:] if x not in drop]
+                            call = {'args': [vals[x] for x in names[:kpos]], 'kw': [[x, vals[x]] for x in kwn]}
+                            if sig['vk'] and rng.random() < 0.3: call['kw'].insert(0, ['zz', 51])
+                            if not is_valid(sig, call) or rng.random() < (0.75 if quick else 0.0): continue
+                            decos, raises = rng.choice(((['pd2np'], False), (['pd2np'], False), (['pd2np', 'try_none'], True), (['kwargs_support', 'pd2np'], False), (['pd2np', 'cache'], False)))
+                            cases.append(dict(kind='stack', decos=decos, raises=raises, exc=exc, excform=form, **sig, **call))
+    # try_back: f raises and every argument is passed by keyword in a permuted order (extra keywords first for **kw functions):
+    # the fallback is the value bound to the FIRST parameter, not the first keyword
+    for n in (1, 2, 3):
+        for nd in range(0, n + 1):
+            for vk in (False, True):
+                sig = {'npos': n, 'ndef': nd, 'va': rng.random() < 0.3, 'vk': vk}
+                for kpos in range(0, n):
+                    rest = NAMES[kpos:n] + ([UNDECL] if vk else [])
+                    for order in itertools.permutations(rest):
+                        if order == tuple(rest) and kpos == 0 and not vk and n > 1: pass
+                        if quick and len(rest) > 3 and rng.random() < 0.5: continue
+                        call = {'args': list(range(1, kpos + 1)), 'kw': [[x, 20 + NAMES.index(x) if x in NAMES else 29] for x in order]}
+                        decos = rng.choice((['try_back'], ['try_back'], ['try_back', 'try_none'], ['kwargs_support', 'try_back'], ['try_back', 'cache'], ['try_back', 'loop']))
+                        cases.append(dict(kind='stack', decos=decos, raises=True, **sig, **call))
     special_valid = []
     for sig in all_sigs():
         for call in special_calls(sig):
